@@ -345,3 +345,13 @@ REPLAY.update({
        for t in ("u8", "u16", "u32", "u64", "u128", "usize", "i8", "i16", "i32", "i64", "i128", "isize")},
     "Parser.parse_bool": ([PA], "pshowv(a0.parse_bool())", "parse_bool_std(a0_s, a0_off)"),
 })
+# ---- the error constructors (C13: an error's offset is the start offset of the parser it was built from, or its end
+# offset when the parser works from the end; group Rest / Parser).  The custom message is not observable through the offset.
+_EOFF = "(if matches!(a0.parse_direction(), PD::FromEnd) { a0_off + a0_s.len() } else { a0_off }, a0.parse_direction()"
+REPLAY.update({
+    "Parser.into_other_error": ([PA, S], '{ static M: &str = "m"; let e = a0.into_other_error(&M); (e.offset(), e.error_direction(), e.kind()) }', _EOFF + ", EK::Other)"),
+    "ParseError.other_error": ([PA, S], '{ static M: &str = "m"; let e = konst::parsing::ParseError::other_error(a0, &M); (e.offset(), e.error_direction(), e.kind()) }', _EOFF + ", EK::Other)"),
+    "Parser.into_error": ([PA, "errkind"], "{ let e = a0.into_error(a1); (e.offset(), e.error_direction(), e.kind()) }", _EOFF + ", a1)"),
+    "ParseError.new": ([PA, "errkind"], "{ let e = konst::parsing::ParseError::new(a0, a1); (e.offset(), e.error_direction(), e.kind()) }", _EOFF + ", a1)"),
+})
+
